@@ -9,10 +9,14 @@ real aiohttp (`web.HTTPFound(next_page).headers['Location']`, exactly what the l
 handlers raise) and a reference WHATWG URL parser (vf/whatwg.py) computes where a browser that
 receives that Location on the auth service's callback page goes.  Oracle (the statement):
 accepted  =>  the browser lands on http(s)://<batch|auth|ci|monitoring host>.
+
+"Accepts" is also judged end to end: for every enumerated string the two-request flows of vf/c29_flow.py
+(login/signup with next=S, then the OAuth callback and the /creating page on the same session cookie)
+run through the real handlers, and every redirect Location the service emits must land on a Hail host.
 """
 import itertools
 
-from vf import par, whatwg
+from vf import c29_flow, par, whatwg
 
 NEEDS_SERVICES = True
 
@@ -23,6 +27,16 @@ SERVICES = ['batch', 'auth', 'ci', 'monitoring']
 FULL_REFERENCE_LEN = 4  # every string of <= this many tokens is also run through the reference, accepted or not
 
 _ctx = None
+_flow = None
+_loc_memo = {}
+
+
+def flow():
+    global _flow
+    if _flow is None:
+        ctx()
+        _flow = c29_flow.Flow()
+    return _flow
 
 
 def ctx():
@@ -119,6 +133,45 @@ def judge(s):
     return True, None, sent, {'location': loc, 'browser': list(res), 'raw_string_lands': raw}
 
 
+def location_lands(loc):
+    """Where a browser following this Location (sent by the auth service) ends up."""
+    r = _loc_memo.get(loc)
+    if r is None:
+        _, _, _, valid_hosts, base = ctx()
+        if loc == c29_flow.IDP_AUTH_URL:
+            r = ('identity-provider', None)  # the redirect to the OAuth provider chosen by the service, not a post-login redirect
+        else:
+            res = whatwg.parse(loc, base)
+            r = (lands(res, valid_hosts), list(res))
+        if len(_loc_memo) > 100000:
+            _loc_memo.clear()
+        _loc_memo[loc] = r
+    return r
+
+
+def _is_offsite(loc):
+    return location_lands(loc)[0] in ('non-http-scheme', 'foreign-host')
+
+
+def judge_flow(s):
+    """Run the two-request flows for next=s.  -> (facts, [(verdict, route, scenario, path, status, location, browser)])"""
+    F = flow()
+    bad = []
+    facts = {'stored': 0, 'redirects': 0, 'step1': []}
+    for route in ('/login', '/signup'):
+        out, stored = F.run(route, s, _is_offsite)
+        facts['stored'] += bool(stored)
+        facts['step1'].append(out[0][2])
+        for scenario, path, status, loc in out:
+            if loc is None:
+                continue
+            facts['redirects'] += 1
+            verdict, browser = location_lands(loc)
+            if verdict in ('non-http-scheme', 'foreign-host'):
+                bad.append((verdict, route, scenario, path, status, loc, browser))
+    return facts, bad
+
+
 class Acc:
     def __init__(self):
         self.c = {}
@@ -172,6 +225,20 @@ def _one(acc, seq, toks, samples):
             samples.append({'next': s, 'accepted': True, 'location': detail and detail['location'], 'browser': detail and detail['browser']})
     else:
         acc.inc('rejected')
+    facts, bad = judge_flow(s)
+    acc.inc('flow:started', 2)
+    acc.inc('flow:step1-left-a-session-cookie', facts['stored'])
+    acc.inc('flow:redirects-judged', facts['redirects'])
+    for st in facts['step1']:
+        acc.inc(f'flow:step1-status:{st}')
+    for verdict, route, scenario, path, status, loc, browser in bad:
+        first = f'GET {route}?next={s!r}'
+        where = first if scenario == '-' else f'{first} (answered {facts["step1"][0 if route == "/login" else 1]}), then GET {path} on the same session' + (
+            ' (account still being created at the callback, active at /creating)' if scenario == 'creating' else ' (existing active user)')
+        what = (f'scheme {browser[1]!r} is not http(s)' if verdict == 'non-http-scheme' else f'the browser lands on host {browser[2]!r}')
+        acc.bad(f'flow-redirects-to-{verdict}', (len(seq), len(s), s, route, scenario),
+                f'{where}: {status} with Location: {loc!r}; {what}, not a Hail host',
+                {'tokens': [toks[i] for i in seq], 's': s, 'flow': True})
     if len(seq) <= FULL_REFERENCE_LEN:
         r = lands(whatwg.parse(s, base), valid_hosts)
         acc.inc(f'short:browser-{r}')
@@ -258,7 +325,7 @@ def check(tier, seed, procs):
         raise RuntimeError(f'enumeration incomplete: {c.get("strings")} + {c.get("noncanonical-skipped")} != {total}')
     violations = []
     for sig, f in sorted(acc.fail.items(), key=lambda kv: (kv[1]['key'], kv[0])):
-        violations.append({'signature': sig, 'message': f'{f["message"]}  [{f["count"]} accepted strings in this class]', 'replay': f['replay']})
+        violations.append({'signature': sig, 'message': f'{f["message"]}  [{f["count"]} failing cases in this class]', 'replay': f['replay']})
         samples.append({'next': f['replay']['s'], 'accepted': True, 'failure': sig})
     cov = {
         'evaluations': c.get('strings', 0),
@@ -277,6 +344,7 @@ def check(tier, seed, procs):
         'accepted_by_browser_outcome': {k.split(':', 1)[1]: v for k, v in sorted(c.items()) if k.startswith('accepted:')},
         'validator_exceptions': {k.split(':', 1)[1]: v for k, v in sorted(c.items()) if k.startswith('validator-raised:')},
         f'reference_outcomes_all_strings_up_to_{FULL_REFERENCE_LEN}_tokens': {k.split(':', 1)[1]: v for k, v in sorted(c.items()) if k.startswith('short:')},
+        'flow': {k.split(':', 1)[1]: v for k, v in sorted(c.items()) if k.startswith('flow:')},
         'reference_selfcheck_cases': n_ref,
         'failing_inputs_per_class': {sig: f['count'] for sig, f in sorted(acc.fail.items())},
     }
@@ -296,6 +364,12 @@ def check(tier, seed, procs):
             'landing on a Hail host = result scheme is http or https and host is one of the four service hosts (any port; one trailing dot tolerated); '
             'a non-http(s) scheme (javascript:, unknown schemes) is not a landing on a Hail host; URLs the browser fails to parse are not counted as violations',
             'deploy config: location external, domain hail.example (written by boot.install)',
+            'two-request flows (vf/c29_flow.py): for every enumerated string S, GET /login?next=S and GET /signup?next=S, then /oauth2callback '
+            '(existing active user; and: user still creating, then /creating once active) with the cookie jar left by step 1 whatever it answered; '
+            'real handlers behind vf/shims/aiohttp_session, whose middleware saves a changed session also onto a raised web.HTTPException '
+            '(aiohttp_session 2.12 control flow); cookie encryption, creation timestamps and max_age expiry are not modelled; fake OAuth flow client and '
+            'database with one user; the redirect to the identity provider authorization URL is not a post-login redirect and is exempt; '
+            'every other Location emitted at any step is judged by the same browser model',
         ],
         'vacuous': vac,
     }
@@ -303,6 +377,11 @@ def check(tier, seed, procs):
 
 def replay(obj):
     s = obj['s']
+    if obj.get('flow'):
+        _, bad = judge_flow(s)
+        if bad:
+            return False, '; '.join(f'{route} next={s!r} [{scenario}] {path} -> {status} Location {loc!r} ({verdict})' for verdict, route, scenario, path, status, loc, _ in bad)
+        return True, 'no violation in the two-request flows'
     accepted, raised, verdict, detail = judge(s)
     if accepted and verdict in ('non-http-scheme', 'foreign-host'):
         return False, f'accepted {s!r}; Location {detail["location"]!r}; browser result {detail["browser"]} -> {verdict}'
